@@ -27,6 +27,7 @@ func ConfigMono() *fl.Config {
 			{Name: "node", Type: fl.Named("Node")},
 			{Name: "nodes", Type: fl.ListOf(fl.NonNull(fl.Named("Node")))},
 			{Name: "things", Type: fl.ListOf(fl.Named("Thing"))},
+			{Name: "grid", Type: fl.ListOf(fl.ListOf(fl.Named("User")))},
 		}},
 		{Kind: fl.KInterface, Name: "Node", Fields: []*fl.FieldDef{idField()}},
 		{Kind: fl.KObject, Name: "User", Implements: []string{"Node"}, Fields: []*fl.FieldDef{
@@ -58,7 +59,7 @@ func ConfigMono() *fl.Config {
 	}}
 	return &fl.Config{Super: super, Subgraphs: []*fl.Subgraph{
 		{Name: "first", Unions: []string{"Thing"}, Types: []*fl.SubType{
-			{Name: "Query", Fields: fields("user", "me", "users", "team", "node", "nodes", "things")},
+			{Name: "Query", Fields: fields("user", "me", "users", "team", "node", "nodes", "things", "grid")},
 			{Name: "Node", Fields: fields("id")},
 			{Name: "User", Fields: fields("id", "name", "title", "nick", "info", "alt", "friends", "pet")},
 			{Name: "Info", Fields: fields("email", "phone", "addr")},
